@@ -347,6 +347,8 @@ def all_cases(tier, seed):
                 t[:, k] = t[rng.permutation(3), k]
             yield "unsorted/%s~%d" % (label, v), fem.MeshTri(m0.p, t, sort_t=False)
     yield "unsorted/tri-oriented", fem.MeshTri.init_sqsymmetric().refined(1).oriented()
+    yield "history/tri-renumbered", fem.MeshTri.init_sqsymmetric().refined(1)
+    yield "history/tri-edge-flipped", fem.MeshTri(np.array([[0., 1., 0., 1., .5, .4], [0., 0., 1., 1., .45, 1.6]]), np.array([[0, 1, 4], [1, 3, 4], [3, 2, 4], [2, 0, 4], [2, 3, 5]]).T)
 
 
 def _task(args):
@@ -364,6 +366,36 @@ def _task(args):
         out.append(dict(input=label, observed="SORTED: cell %d of the delivered MeshTri1 lists its vertices as %s (sort_t=%s)" % (k, m.t[:, k].tolist(), m.sort_t),
                         replay=dict(kind="continuity_case", mesh=label, element="ElementTriP3", seed=seed, tier=tier)))
     curved = label.split("~")[0] in ("tri2-circle", "quad2", "quad2-curved", "tet2", "hex2")
+    if label.startswith("history/"):
+        # ONE element object used on a mesh and then on another mesh with the very same vertex array, the same number of cells and a different
+        # connectivity (cells renumbered / an interior edge flipped): whatever the element remembers must not leak into the second mesh
+        import skfem as fem
+        m2 = m
+        t1 = m2.t[:, ::-1].copy() if label.endswith("renumbered") else None
+        if t1 is None:
+            # flip the interior edge shared by cells 0 and its neighbour across facet f
+            f = int(np.nonzero(m2.f2t[1] != -1)[0][0])
+            k0, k1 = m2.f2t[:, f]
+            a, b = m2.facets[:, f]
+            c0 = [v for v in m2.t[:, k0] if v not in (a, b)][0]
+            c1 = [v for v in m2.t[:, k1] if v not in (a, b)][0]
+            t1 = m2.t.copy()
+            t1[:, k0] = [a, c0, c1]
+            t1[:, k1] = [b, c0, c1]
+        m1 = type(m2)(m2.doflocs, t1)
+        for elabel, e in elements_for(m2):
+            if only_el and elabel != only_el:
+                continue
+            try:
+                check(label + " (first mesh)", m1, elabel, e, rng, tier)
+                c, fl = check(label, m2, elabel, e, rng, tier)
+            except Exception as ex:
+                c, fl = 1, ["exception %s: %s" % (type(ex).__name__, ex)]
+            cases += c
+            for f_ in fl[:2]:
+                out.append(dict(input="%s on %s after use on a mesh with the same vertex array" % (elabel, label), observed=f_,
+                                replay=dict(kind="continuity_case", mesh=label, element=elabel, seed=seed, tier=tier)))
+        return label, cases, out
     for elabel, e in elements_for(m):
         if only_el and elabel != only_el:
             continue
